@@ -472,8 +472,8 @@ def canary(eng):
 
 def replay(o, tree):
     cfg = o.get("cfg") or {}
-    if o.get("kind") == "bounded":
-        return None          # evaluated on the real assembler already: the failing characters are in the obligation's detail
+    if o.get("kind") in ("bounded", "closed"):
+        return None          # evaluated on the real assembler / the real tables already: the failing characters are in the obligation's detail
     if cfg.get("kind") == "include-path":
         return None          # the real CLI was run: the failing environment and output are in the obligation's detail
     probes = ["abc", "\u20acabc", "ab\u20ac", "a\u20acb\u4e2dc", "\u4e2d", "\u044f\u0411", "a\u20ac", "\u20ac\u20ac", "\x7f", "\u25a0", "\u00a4$"]
